@@ -90,7 +90,7 @@ def work_contract(job):
         rec['path_outcomes'] = sorted(set(p['outcome'] for p in res['paths']))
         rec['gen_s'] = res['gen_s']
         rec['trivial'] = eng.trivial
-        n_open = 0
+        open_by_name = {}
         fallback_spent, fallback_budget = 0.0, (120.0 if tier == 'quick' else 1800.0)     # seconds per contract (shard) for portfolio / candidate search / cvc5 on obligations z3 left open
         direct_hit = {}       # clause name -> replayed failure (input-independent replays are run once per clause)
         for oi, o in enumerate(res['obls']):
@@ -103,10 +103,12 @@ def work_contract(job):
                 rec['obls'].append(orec)
                 continue
             # a contract with many open obligations (a changed function body): the rest gets one cheap attempt each
-            d = discharge(o, tier, second_opinion=(tier == 'thorough'), cvc5_ok=(fallback_spent < fallback_budget and n_open < 8), rl_div=(8 if n_open >= 8 else 1))
+            # (the same clause open on several paths already: further paths of that clause get one cheap attempt each; other clauses keep the full effort)
+            same_open = open_by_name.get(o.name, 0)
+            d = discharge(o, tier, second_opinion=(tier == 'thorough'), cvc5_ok=(fallback_spent < fallback_budget and same_open < 3), rl_div=(8 if same_open >= 3 else 1))
             fallback_spent += d.get('cvc5_fallback_seconds', 0) or 0
             if d['status'] != 'proved':
-                n_open += 1
+                open_by_name[o.name] = same_open + 1
             orec = {'name': o.name, 'kind': o.kind, 'status': d['status'], 'backend': d['backend'], 'seconds': round(d['seconds'], 4),
                     'quantified': d['quantified'], 'path': o.path_id, 'props': props_of_obl(o.name, c.props), 'size': o.size(),
                     'lineno': o.lineno, 'cvc5': d.get('cvc5')}
@@ -162,6 +164,23 @@ def work_contract(job):
                     except Exception as e:
                         orec['replay'] = {'verdict': 'error', 'detail': f'{type(e).__name__}: {e}', 'tb': traceback.format_exc()[-1500:]}
             rec['obls'].append(orec)
+        # ---- an input that makes the real function break one clause often breaks the neighbouring clauses too: replay the witnesses
+        # found for refuted obligations against the obligations the solvers left open
+        wits = [o['witness'] for o in rec['obls'] if o['status'] == 'refuted' and isinstance(o.get('witness'), dict) and (o.get('replay') or {}).get('verdict') == 'violates'
+                and 'args' in o['witness']]
+        if wits and not c.opts.get('no_model_replay'):
+            for o in rec['obls']:
+                if o['status'] == 'unknown' and o['kind'] in ('post', 'raise'):
+                    clause = o['name'].split(':', 1)[1] if ':' in o['name'] else o['name']
+                    for w in wits[:4]:
+                        try:
+                            rr = rp.run_witness(eng, c, clause, w, repo, kind=o['kind'])
+                        except Exception:
+                            continue
+                        if rr.get('verdict') == 'violates':
+                            o.update({'status': 'refuted', 'witness': w, 'replay': rr,
+                                      'model': 'obligation left open by the solvers; the failing input of a neighbouring clause also breaks this one on the real function'})
+                            break
         # ---- run-time cross-check of the contract on the real function (small random inputs) and, for obligations
         # left open, search for a replayable failing input
         if not c.opts.get('no_search') and shard == 0:
@@ -187,6 +206,23 @@ def work_contract(job):
                                         'quantified': False, 'path': '-', 'props': props_of_obl(clause, c.props), 'witness': w, 'replay': rr,
                                         'contradicts_proof': proved_all,
                                         'model': 'contract clause fires on the real function for this input'})
+            # clause-directed search for what is still open (the undirected search stops at the first clause that fires)
+            still = []
+            for o in rec['obls']:
+                if o['status'] == 'unknown' and o['kind'] in ('post', 'raise'):
+                    cl = o['name'].split(':', 1)[1] if ':' in o['name'] else o['name']
+                    if cl not in still:
+                        still.append(cl)
+            for cl in still[:6]:
+                try:
+                    w2, rr2, _ = rp.search(eng, c, cl, repo, n=(120 if tier == 'quick' else 1000), seed=seed + 1)
+                except Exception:
+                    continue
+                if w2 is not None:
+                    for o in rec['obls']:
+                        if o['status'] == 'unknown' and cl in o['name']:
+                            o.update({'status': 'refuted', 'witness': w2, 'replay': rr2,
+                                      'model': 'failing input found by clause-directed search over small inputs (obligation was not discharged)'})
     except Exception as e:
         rec['error'] = f'{type(e).__name__}: {e}\n{traceback.format_exc()[-3000:]}'
     rec['wall_s'] = time.time() - t0
